@@ -283,3 +283,80 @@ Section IoBeforeDetermined.
     - right. exact E.
   Qed.
 End IoBeforeDetermined.
+
+(* ---- what a truncated input can fail with ---- *)
+Require Import TruncProofs.
+Section Truncation.
+  Variable ro : parse_options.
+  Variable alpha : N -> bool.
+  Variable fast : bool.
+  Variable std_parse : N -> Z -> f64.
+
+  (* the codes a proper prefix of an accepted text can fail with: the EOF
+     category, and four checks made on data read before the end *)
+  Definition trunc_code (c : errcode) : Prop :=
+    classify_code c = CatEof \/ c = NumberOutOfRange \/ c = InvalidUnicodeCodePoint \/ c = ExpectedOctet \/ c = RecursionLimitExceeded.
+  Lemma eofcode_trunc c : eofcode c = true -> trunc_code c.
+  Proof. unfold eofcode, trunc_code. destruct c; cbn; intros H; try discriminate; tauto. Qed.
+
+  Lemma trunc_pokres {A} (x : pres A) : pokres x -> x <> PErr (XErr EFuel) -> no_panic x ->
+    (exists v, x = POk v) \/ (exists c l cl, x = PErr (XErr (ESyntax c l cl)) /\ trunc_code c).
+  Proof.
+    destruct x as [a|[e|k]]; cbn [pokres]; intros H Hf Hp.
+    - left. eexists; reflexivity.
+    - destruct e as [c l cl|io|]; cbn [eofish] in H; [|contradiction|exfalso; apply Hf; reflexivity].
+      right. exists c, l, cl. split; [reflexivity|apply eofcode_trunc; exact H].
+    - exfalso. apply (Hp k). reflexivity.
+  Qed.
+
+  Theorem truncation_partial (pre rest : list event) v :
+    from_trait ro alpha fast std_parse SrcIo (pre ++ rest) = POk v ->
+    (exists v', from_trait ro alpha fast std_parse SrcIo pre = POk v') \/
+    (exists c l cl, from_trait ro alpha fast std_parse SrcIo pre = PErr (XErr (ESyntax c l cl)) /\ trunc_code c).
+  Proof.
+    intros EA. set (fuel := Nat.max (fuel_for pre) (fuel_for (pre ++ rest))).
+    destruct (from_trait_fuel_irrelevant ro alpha fast std_parse fuel SrcIo pre ltac:(unfold fuel; lia)) as [F1 _].
+    destruct (from_trait_fuel_irrelevant ro alpha fast std_parse fuel SrcIo (pre ++ rest) ltac:(unfold fuel; lia)) as [F2 _].
+    pose proof (proj1 (total_from_trait ro alpha fast std_parse SrcIo pre)) as T1.
+    pose proof (proj1 (from_trait_no_panic ro alpha fast std_parse SrcIo pre)) as P1.
+    rewrite <- F2 in EA. rewrite <- F1 in T1, P1. rewrite <- F1. unfold from_trait_fuel in *.
+    destruct (proj1 (trunc_from_trait rest ro alpha fast std_parse fuel pre)) as [(x & E)|[(E & _)|(_ & Ho)]].
+    - rewrite EA in E. discriminate.
+    - left. exists v. rewrite E. exact EA.
+    - apply trunc_pokres; assumption.
+  Qed.
+  Theorem truncation_partial_datum (pre rest : list event) d :
+    datum_from_trait ro alpha fast std_parse SrcIo (pre ++ rest) = POk d ->
+    (exists d', datum_from_trait ro alpha fast std_parse SrcIo pre = POk d') \/
+    (exists c l cl, datum_from_trait ro alpha fast std_parse SrcIo pre = PErr (XErr (ESyntax c l cl)) /\ trunc_code c).
+  Proof.
+    intros EA. set (fuel := Nat.max (fuel_for pre) (fuel_for (pre ++ rest))).
+    destruct (from_trait_fuel_irrelevant ro alpha fast std_parse fuel SrcIo pre ltac:(unfold fuel; lia)) as [_ F1].
+    destruct (from_trait_fuel_irrelevant ro alpha fast std_parse fuel SrcIo (pre ++ rest) ltac:(unfold fuel; lia)) as [_ F2].
+    pose proof (proj2 (total_from_trait ro alpha fast std_parse SrcIo pre)) as T1.
+    pose proof (proj2 (from_trait_no_panic ro alpha fast std_parse SrcIo pre)) as P1.
+    rewrite <- F2 in EA. rewrite <- F1 in T1, P1. rewrite <- F1. unfold datum_from_trait_fuel in *.
+    destruct (proj2 (trunc_from_trait rest ro alpha fast std_parse fuel pre)) as [(x & E)|[(E & _)|(_ & Ho)]].
+    - rewrite EA in E. discriminate.
+    - left. exists d. rewrite E. exact EA.
+    - apply trunc_pokres; assumption.
+  Qed.
+
+  (* the same for a byte slice, through the slice / stream agreement *)
+  Corollary truncation_partial_slice (p s : bytes) v :
+    from_trait ro alpha fast std_parse SrcSlice (bytes_events (p ++ s)) = POk v ->
+    (exists v', from_trait ro alpha fast std_parse SrcSlice (bytes_events p) = POk v') \/
+    (exists c l cl, from_trait ro alpha fast std_parse SrcSlice (bytes_events p) = PErr (XErr (ESyntax c l cl)) /\ trunc_code c).
+  Proof.
+    intros EA. pose proof (slice_stream_agree ro alpha fast std_parse (p ++ s)) as HA. rewrite EA in HA.
+    destruct (from_trait ro alpha fast std_parse SrcIo (bytes_events (p ++ s))) as [v2|x2] eqn:E2; [|destruct x2 as [[? ? ?|?|]|?]; contradiction].
+    cbn [same_outcome] in HA. subst v2.
+    assert (Eapp : bytes_events (p ++ s) = bytes_events p ++ bytes_events s) by (unfold bytes_events; apply map_app).
+    rewrite Eapp in E2.
+    pose proof (slice_stream_agree ro alpha fast std_parse p) as HB.
+    destruct (truncation_partial (bytes_events p) (bytes_events s) v E2) as [(v' & E)|(c & l & cl & E & Hc)]; rewrite E in HB.
+    - left. destruct (from_trait ro alpha fast std_parse SrcSlice (bytes_events p)) as [v1|x1]; [exists v1; reflexivity|destruct x1 as [[? ? ?|?|]|?]; contradiction].
+    - right. destruct (from_trait ro alpha fast std_parse SrcSlice (bytes_events p)) as [v1|x1]; [contradiction|].
+      destruct x1 as [[c1 l1 cl1|io|]|k]; try contradiction. cbn [same_outcome] in HB. subst c1. exists c, l1, cl1. split; [reflexivity|exact Hc].
+  Qed.
+End Truncation.
